@@ -613,6 +613,8 @@ def run(ctx: Ctx):
         "decision vectors have the dimension of get_bounds() (pygmo guarantees it; len(x) = total width is a "
         "hypothesis of the theorems)",
         "distinct keys for distinct variables",
+        "nobody but the modelled operations writes to the shared objects during a history (the caller does not edit the "
+        "list returned by get_bounds, the ParameterValues or the arrays it handed over)",
     ]
     try:
         gen = {"Gen_C10.v": translate(ctx.repo)}
@@ -632,7 +634,7 @@ def run(ctx: Ctx):
     calibs = [("sade", 1, 1), ("sga", 2, 1)] if ctx.quick else \
         [(a, s, i) for a in ("sade", "sga", "nlopt") for s in (1, 2) for i in (1, 2)][:12]
     cases = gen_cases(ctx, ctx.budget(150, 900), ctx.budget(30, 150), calibs)
-    calib2s = [[("sade", 1, 1), ("sga", 2, 1)]] if ctx.quick else \
+    calib2s = [[("sade", 1, 2), ("sga", 2, 2)]] if ctx.quick else \
         [[("sade", 1, 1), ("sga", 2, 1)], [("sga", 3, 2), ("sade", 4, 2), ("nlopt", 5, 1)],
          [("nlopt", 6, 1), ("sade", 7, 1)], [("sade", 8, 2), ("sade", 8, 2)]]
     hcases = gen_histories(ctx, ctx.budget(40, 300), calib2s)
@@ -804,23 +806,39 @@ def replay_hist(ctx: Ctx, case, obs, gen_text) -> int:
 META = dict(
     level_text=(
         "Coq theorems, for every list of calibrated variables (any mix of scalar/vector, linear/logarithmic, "
-        "shared/per-component boundaries), every decision vector and every element type: the three functions that walk "
-        "the decision vector (_set_bound, convert_to_parameters, update_processor), modelled as coded with their running "
+        "shared/per-component boundaries), every decision vector and every element type: the functions that walk the "
+        "decision vector (_set_bound, convert_to_parameters, update_processor), modelled as coded with their running "
         "offsets, use the same consecutive disjoint slices in declaration order; the conversion touches exactly the "
         "slices of logarithmic variables; what is reported equals what is handed to Processor.set; refusal rule of the "
-        "constructor; and over the reals a vector inside the optimiser's box yields parameters inside the declared "
-        "boundaries. The model is hand-written (no translator); that the Python code behaves like the model is "
-        "established by correspondence, i.e. by testing: the real ModelFittingDataTree is driven directly (get_bounds, "
-        "convert_to_parameters 1-D/2-D/DataArray, fitness with a probe model, update_processor) on generated "
-        "declarations and dyadic / power-of-ten vectors, and real tiny calibrations are run whose every logged "
-        "evaluation, champion and best individual is judged inside Coq against the specification."),
+        "constructor; over the reals a vector inside the optimiser's box yields parameters inside the declared "
+        "boundaries. These theorems are re-proved on every run over a DESCRIPTION of the loops that a fail-closed "
+        "translator reads from the current source (iteration order, per class of variable which element/column of the "
+        "boundaries goes to the lower/upper list and whether log10 is applied by rebinding or in place, the slice "
+        "[start, stop) that gets 10** and the new offset as linear forms, the index/slice handed to Processor.set, which "
+        "copies are taken): C10_source_as_modelled + C10_src_*. Over an explicit object store (the ParameterValues "
+        "objects, a heap of processors, the problems built so far) C10_history_independent proves for EVERY history "
+        "of problem constructions, get_bounds, convert_to_parameters, fitness and update_processor calls on the same "
+        "objects that the declaration and every existing processor are unchanged and every observation is the "
+        "history-free function of the declaration (C10_builds_idempotent: a problem built after any history has the "
+        "box of the first). What the translator does not read (numpy/pygmo/xarray behaviour, Processor.set, deepcopy) "
+        "and the translator's own reading are tied by correspondence, i.e. by testing: the real ModelFittingDataTree "
+        "is driven directly and through histories on shared objects (objects read back after every operation), real "
+        "tiny calibrations and Calibration.run_calibration called twice on the same Calibration are run, and every "
+        "logged evaluation, champion, best individual and final application of the champions' parameters is judged "
+        "inside Coq against the specification; the generated description is run inside Coq against the same "
+        "observations."),
     level_note=(
-        "Trusted: Coq kernel + vm_compute; real-number axioms + classic for C10_in_bounds only (the structural theorems "
-        "are closed); the correspondence harness and probe; numpy slicing/copy semantics; np.power/log10 within 4 ulp "
-        "(tolerance on the implementation-side comparison only); pygmo proposes vectors inside the box and reports "
-        "evaluated individuals (both checked on every logged evaluation, not proved). Float rounding of 10**log10(lo) is "
-        "not carried by the theorem over R."),
-    technique="Coq proof by induction over the variable list (generic element type) + real-analysis bound + in-Coq "
-              "correspondence/spec evaluation on the real problem object and real calibrations",
+        "Trusted: Coq kernel + vm_compute; real-number axioms + classic for C10_in_bounds / C10_src_in_bounds only (the "
+        "structural and history theorems are closed); translator/c10.py (fail-closed; its output is also evaluated "
+        "against the implementation); the correspondence harness and probe; numpy slicing/copy/view semantics as "
+        "modelled (a column of a 2-D array is a view, np.array copies, x = f(x) rebinds, f(x, out=x) writes); np.power/"
+        "log10 within 4 ulp (tolerance on the implementation-side comparison only); copy.deepcopy and Processor.set as "
+        "modelled (values by value); pygmo proposes vectors inside the box and reports evaluated individuals (checked "
+        "on every logged evaluation, not proved). Float rounding of 10**log10(lo) is not carried by the theorem over "
+        "R. Problems with several processors (result_input_arguments) are not driven."),
+    technique="Coq proof by induction over the variable list / over histories (generic element type, explicit object "
+              "store) + fail-closed python-ast translator of the loops with the theorems re-proved over the generated "
+              "description + real-analysis bound + in-Coq correspondence/spec evaluation on the real problem object, on "
+              "histories over shared objects and on real calibrations",
     design_ref="DESIGN.md section 6, C10",
 )
